@@ -205,14 +205,17 @@ def run_case(case, g, tier, res):
         def h(c):
             fi = c.fresh_int("fam", 0, 5).__index__()
             fam = fams[fi]
-            op = c.fresh_int("op", 0, 1).__index__()  # 0 replace a character, 1 drop a character
-            pos = c.fresh_int("pos", 0, len(fam) - 1).__index__()
+            op = c.fresh_int("op", 0, 2).__index__()  # 0 replace a character, 1 drop a character, 2 insert a character
+            pos = c.fresh_int("pos", 0, len(fam) - (0 if op == 2 else 1)).__index__()
             if op == 0:
                 ch = fresh_char("ch", "abxz_q")
                 c.add(ch.e != ord(fam[pos]))
                 name = SymStr.of(fam[:pos], ch, fam[pos + 1:])
-            else:
+            elif op == 1:
                 name = fam[:pos] + fam[pos + 1:]
+            else:
+                ch = fresh_char("ch", "abxz_q2")
+                name = SymStr.of(fam[:pos], ch, fam[pos:])
             text = SymStr.of("|", name, args[fam], "|")
             via = c.fresh_int("via", 0, 1).__index__()
             if via == 0:
